@@ -133,6 +133,10 @@ def check_result(c, d, T, op, status, tr, exc, res, total):
         return
     if status == "ok":
         res.nontrivial += 1
+    if tr.doc.content.size != len(tk.doc_tokens(model, rj)):
+        # the sizes the document reports must be those of its content (positions index into it)
+        res.violate("c11.result-size-inconsistent", case, tr.doc.content.size, len(tk.doc_tokens(model, rj)), size=size)
+        return
     frm = op.get("from", op.get("pos"))
     to = op.get("to", op.get("pos"))
     T1 = tk.doc_tokens(model, rj)
@@ -141,6 +145,8 @@ def check_result(c, d, T, op, status, tr, exc, res, total):
     suf = tk.leaf_seq(T[to:])
     if "slice" in op:
         ins = tk.leaf_seq(tk.content_tokens(model, op["slice"]["content"]))
+    elif "nodes" in op:
+        ins = tk.leaf_seq(tk.content_tokens(model, op["nodes"]))
     elif "node" in op:
         ins = tk.leaf_seq(tk.content_tokens(model, [op["node"]]))
     else:
@@ -182,7 +188,7 @@ def check_result(c, d, T, op, status, tr, exc, res, total):
                 return
 
 
-def check_doc(c, sc, d, pools, res, total, node=None, groups=("replace",), with_replace_step=True):
+def check_doc(c, sc, d, pools, res, total, node=None, groups=("replace", "lists"), with_replace_step=True):
     model = c.model
     if node is None:
         node = c.node(d)
